@@ -1,7 +1,8 @@
 (* Mgr — wire format, model runner, and the trace oracles for C05 and C06. Definitions only. *)
 From Coq Require Import List NArith Bool.
 From V.common Require Import Wire.
-From V.Mgr Require Import Model.
+From V.C10 Require Glue.
+From V.Mgr Require Import DialShape Model.
 Import ListNotations.
 Open Scope N_scope.
 
@@ -19,6 +20,7 @@ Definition p_ev : parser ev :=
   | 8 => let* c := pN in let* ok := pBool in pret (AcceptDone c ok)
   | 9 => let* p := pN in let* c := pN in pret (Closed p c)
   | 10 => pret AllocConn
+  | 11 => let* a := V.C10.Glue.p_maddr in pret (CmdDialShape a)
   | _ => pfail
   end.
 
@@ -249,9 +251,16 @@ Definition led_step (e : ev) (o : obs) (g : led) : led :=
   let ret_ok := o_ret o =? 1 in
   let fails := match e with CmdDialPeer _ f | CmdDialAddr _ f | TrOpened _ f => f
                           | TrEstablished _ _ _ f => f | _ => false end in
+  let shape_peer := match e with
+                    | CmdDialShape a => match dial_shape LISTEN a with SvTcp p | SvWs p => Some p | _ => None end
+                    | _ => None end in
   let new_att := match e with
                  | CmdDialPeer p _ | CmdDialAddr p _ =>
                      if ret_ok then map (fun c => (c, p)) (calls_of 1 o ++ calls_of 2 o) else []
+                 | CmdDialShape _ =>
+                     match shape_peer with
+                     | Some p => if ret_ok then map (fun c => (c, p)) (calls_of 2 o) else []
+                     | None => [] end
                  | _ => [] end in
   let terms := map (fun x : N * (N * N) =>
                       match x with (1, (_, c)) => c | (3, (c, _)) => c | (4, (c, _)) => c | (_, (_, c)) => c end)
@@ -294,6 +303,7 @@ Definition ev_feasible (e : ev) (g : led) (l : live_t) : bool :=
   | AcceptDone c ok => ok && mem c (owed_acc g)
   | Closed p c => (match lookup c l with Some (q, _) => q =? p | None => false end) && negb (mem c (owed_acc g))
   | AllocConn => true
+  | CmdDialShape _ => true
   end.
 
 Definition quiescent (g : led) : bool :=
@@ -313,6 +323,21 @@ Definition c05_step_ok (L : limits) (prev : option obs) (e : ev) (o : obs) (g' :
   forallb (fun c => Nat.leb (count_n c (terminals g')) 1) (terminals g') &&
   (* no panic / debug assertion on a feasible history *)
   (o_stuck o =? 0) &&
+  (* a malformed / unsupported address is refused with an error: nothing is called, no peer state changes *)
+  match e, prev with
+  | CmdDialShape a, Some po =>
+      match dial_shape LISTEN a with
+      | SvTcp _ => true
+      | v => (match o_calls o with [] => true | _ => false end) &&
+             (match v with SvRefuse _ => negb (o_ret o =? 1) | _ => true end) &&
+             list_eqb (fun x y : N * (N * (N * N)) =>
+                         (fst x =? fst y) && (fst (snd x) =? fst (snd y)) &&
+                         (fst (snd (snd x)) =? fst (snd (snd y))) && (snd (snd (snd x)) =? snd (snd (snd y))))
+                      (o_states po) (o_states o) &&
+             list_eqb (fun x y : N * N => (fst x =? fst y) && (snd x =? snd y)) (o_pending po) (o_pending o)
+      end
+  | _, _ => true
+  end &&
   (* a dial of a disconnected, known peer below the limit is really attempted *)
   match e, prev with
   | CmdDialPeer p false, Some po =>
